@@ -56,7 +56,9 @@ theorem invL_onReq (c : Cfg) (h12 : c.fix12 = true) (h13 : c.fix13 = true) (s : 
     · split
       · exact invL_respond c _ p _ _ (invL_setPrepared c s _ h)
       · exact invL_respond c _ p _ _ h
-    · exact invL_updObj c s p _ h rfl rfl rfl rfl rfl (Nat.le_refl _)
+    · split
+      · exact invL_updObj c s p _ h rfl rfl rfl rfl rfl (Nat.le_refl _)
+      · exact invL_respond c _ p _ _ h
 
 theorem invL_step (c : Cfg) (h12 : c.fix12 = true) (h13 : c.fix13 = true) (s : St) (e : Ev) (h : InvL c s)
     (hG : Good s) (hr : reuseCond s e) : InvL c (step c s e).1 := by
